@@ -28,7 +28,8 @@ open RotoV.ListConc
 
 /-- `List::get` and `ffi::list_get` clone the element while the guard under
     which they looked it up is alive (fails to check when the guard is
-    released before the clone, as on the pinned tree) -/
+    released before the clone, as on the pinned tree), and `==` takes its two
+    mutexes in address order (fails to check for `self` then `other`) -/
 theorem facts_guarded : RotoV.Gen.C16.facts = Facts.guarded := by decide
 
 /-- every other `ErasedList` method that touches the buffer is exactly one
@@ -120,6 +121,33 @@ theorem completion_order_respects_real_time (F : Facts) (s s2 : State) (pre post
     obtain ⟨ds, hds⟩ := run_hist_grows post s1 s2 h
     exact ⟨s1, ds, rfl, h, hds⟩
 
+/-- **No schedule deadlocks.** For every number of threads, all programs (all
+    operations, including `==` and `concat`) and every schedule: in the state
+    reached, if some thread still has work to do then some thread can take a
+    step — so `deadlocked` is false. (`==` takes the mutex with the smaller
+    address first, so a chain of threads each holding one mutex and waiting for
+    another climbs in address order and ends at a thread that can move.) -/
+theorem no_deadlock (lists : List (List Nat)) (progs : List (List Op)) (sched : List Nat)
+    (s' : State) (hrun : run RotoV.Gen.C16.facts (init lists progs) sched = some s') :
+    (∀ t, unfinished s' t = true → ∃ v, v < progs.length ∧ enabled RotoV.Gen.C16.facts s' v = true) ∧
+    deadlocked RotoV.Gen.C16.facts progs.length s' = false := by
+  have key : ∀ t, unfinished s' t = true →
+      ∃ v, v < progs.length ∧ enabled RotoV.Gen.C16.facts s' v = true :=
+    fun t ht => reachable_progress facts_guarded lists progs sched s' hrun t ht
+  refine ⟨key, ?_⟩
+  unfold deadlocked
+  cases hany : (List.range progs.length).any (unfinished s') with
+  | false => rfl
+  | true =>
+    obtain ⟨t, _, ht⟩ := List.any_eq_true.1 hany
+    obtain ⟨v, hv, hen⟩ := key t ht
+    have : ((List.range progs.length).all fun t => !enabled RotoV.Gen.C16.facts s' t) = false := by
+      rw [Bool.eq_false_iff]
+      intro hall
+      have := List.all_eq_true.1 hall v (List.mem_range.2 hv)
+      simp [hen] at this
+    simp [this]
+
 /-! ### T3 — refutations: what the model says about the code that violates the property -/
 
 /-- the final results of a schedule, per thread -/
@@ -150,11 +178,12 @@ theorem concat_not_linearizable :
     seqConsistent [[1, 2, 3, 4]] [[.push 0 7], [.concat 0 0]]
       [[.unit], [.list [1, 2, 3, 4, 1, 2, 3, 4, 7]]] = false := by decide
 
-/-- `==` locks `self` then `other`: `a == b` ‖ `b == a` deadlocks after one
-    step each. Known finding C16-eq-lock-order-deadlock. -/
-theorem eq_opposite_order_deadlock :
-    (run RotoV.Gen.C16.facts (init [[1], [2]] [[.eq 0 1], [.eq 1 0]]) [0, 1]).map
-      (deadlocked RotoV.Gen.C16.facts 2) = some true := by decide
+/-- `==` as written on the pinned tree locked `self` then `other`: `a == b` ‖
+    `b == a` deadlocks after one step each. (Repaired by repo commit 17d52d2:
+    address-ordered locking; replayed on the real code before it.) -/
+theorem eq_as_written_opposite_order_deadlock :
+    (run ⟨true, true, false⟩ (init [[1], [2]] [[.eq 0 1], [.eq 1 0]]) [0, 1]).map
+      (deadlocked ⟨true, true, false⟩ 2) = some true := by decide
 
 /-! ### non-vacuity -/
 
@@ -178,6 +207,12 @@ example : (∀ p ∈ [[Op.get 0 1, .swap 0 0 1, .eq 0 1], [Op.push 0 9, .contain
 example : seqConsistent [[1, 2, 3, 4]] [[.push 0 7], [.concat 0 0]]
     [[.unit], [.list [1, 2, 3, 4, 7, 1, 2, 3, 4, 7]]] = true := by decide
 example : Facts.asWritten ≠ Facts.guarded := by decide
+/-- `no_deadlock` is about something: the schedule that deadlocks as written is
+    not even a schedule any more (thread 1 is blocked until thread 0 is done) -/
+example : (run RotoV.Gen.C16.facts (init [[1], [2]] [[.eq 0 1], [.eq 1 0]]) [0, 1]).isSome = false := by
+  decide
+example : (run RotoV.Gen.C16.facts (init [[1], [2]] [[.eq 0 1], [.eq 1 0]]) [0, 0, 1, 1]).map
+    (fun s => resultsOf s 2) = some [[.bool false], [.bool false]] := by decide
 /-- `completion_order_respects_real_time` on a concrete split -/
 example : (run RotoV.Gen.C16.facts (init [[1]] [[.len 0], [.push 0 2]]) ([0] ++ [1])).isSome = true := by
   decide
